@@ -33,6 +33,9 @@ def _c10_stats(cases, impl):
 
 
 def _norm_crash(out):
+    # configurations outside the model: the harness still runs the real code and appends its trace for
+    # the model-free oracles; the model has no such trace
+    out = out.split(' :: TRACE ')[0]
     # a process abort / hang of the real code and the model running out of recursion fuel are the
     # same observation: unbounded recursion
     if out.startswith(('crash abort', 'crash hang')) or 'fuelOut' in out[:40]:
@@ -270,6 +273,50 @@ PROPS['C04']['determined'] = _c04_observable
 PROPS['C04']['determined_what'] = 'the order in which the key list sent to the OS changes, and whether the layer table the parser built is the one the configuration spells out'
 PROPS['C04']['norm_impl'] = _norm_crash
 PROPS['C04']['norm_model'] = _norm_crash
+def _c14_free_oracle(case, impl):
+    """repeat clause on the implementation's trace alone (configurations outside the kanata-level
+    model, e.g. sequence mode): at most one event per OS repeat, and only for a key that is down"""
+    if ' :: TRACE ' not in impl:
+        return None
+    down = set()
+    toks = impl.split(' :: TRACE ')[1].split(' ')
+    i = 0
+    while i < len(toks):
+        t = toks[i]
+        if t in ('I', 'D'):
+            break
+        if t.startswith('@'):
+            is_rep = t.endswith('R')
+            j = i + 1
+            evs = []
+            while j < len(toks) and not toks[j].startswith('@') and toks[j] not in ('I', 'D'):
+                evs.append(toks[j])
+                j += 1
+            if is_rep:
+                em = [e for e in evs if e != '-']
+                if len(em) > 1:
+                    return f'fail repeat at {t[1:-1]} emitted {len(em)} events'
+                for e in em:
+                    m = re.fullmatch(r'd(\d+)', e)
+                    if not m:
+                        return f'fail repeat at {t[1:-1]} emitted {e}'
+                    if m.group(1) not in down:
+                        return f'fail repeat at {t[1:-1]} forwarded for key {m.group(1)} which is up at the OS'
+            else:
+                for e in evs:
+                    m = re.fullmatch(r'([du])(\d+)', e)
+                    if m:
+                        (down.add if m.group(1) == 'd' else down.discard)(m.group(2))
+            i = j
+            continue
+        i += 1
+    return 'ok'
+
+
+PROPS['C14']['free_oracle'] = _c14_free_oracle
+# C02 outside the model: the history must simply be processed (a panic is caught by the harness and
+# shows as `crash ...`, which the projection turns into a failure)
+PROPS['C02']['free_oracle'] = lambda case, impl: 'ok' if (' :: TRACE ' in impl or impl.startswith('crash')) else None
 PROPS['C02']['determined'] = lambda case, out: 'crash' if out.startswith('crash') else ('rej' if out.startswith('rej') else 'runs')
 PROPS['C02']['determined_what'] = 'whether event processing crashes or hangs'
 PROPS['C01']['determined'] = _kan_final
